@@ -99,16 +99,60 @@ class Result:
             self.add_violation(r)
 
 
+_PMAP_CALLS = []      # (function, chunksize, items) of every pmap call of this run - used to reconstruct histories
+
+
+def _run_chunk(args):
+    fn, chunk = args
+    return [fn(t) for t in chunk]
+
+
 def pmap(fn, items, workers=None, chunksize=1):
-    """order-preserving parallel map with forked workers (iOpt already imported)"""
+    """Order-preserving parallel map.  Every chunk of `chunksize` consecutive items is processed by a child forked
+    from this (pristine: it never runs iOpt code itself) process and by nothing else, so the complete in-process
+    history of item i is the items of its own chunk before it - nothing an unrelated work item left behind in module
+    state can influence it, and a finding can be replayed from its chunk prefix alone."""
     items = list(items)
     workers = workers or WORKERS
+    _PMAP_CALLS.append((fn, max(1, chunksize), items))
     if workers <= 1 or len(items) <= 1:
         return [fn(i) for i in items]
     import multiprocessing as mp
     ctx = mp.get_context("fork")
-    with ctx.Pool(min(workers, len(items))) as pool:
-        return pool.map(fn, items, chunksize)
+    cs = max(1, chunksize)
+    chunks = [items[i:i + cs] for i in range(0, len(items), cs)]
+    with ctx.Pool(min(workers, len(chunks)), maxtasksperchild=1) as pool:
+        outs = pool.map(_run_chunk, [(fn, c) for c in chunks], 1)
+    return [o for c in outs for o in c]
+
+
+def find_history(rec):
+    """the items that the process which produced violation record `rec` had executed before it (its chunk prefix)"""
+    jr = jsonable(rec)
+    for fn, cs, items in reversed(_PMAP_CALLS):
+        if cs <= 1:
+            continue
+        for idx, t in enumerate(items):
+            if isinstance(t, dict) and t:
+                jt = jsonable(t)
+                if all(k in jr and jr[k] == v for k, v in jt.items()):
+                    lo = idx - idx % cs
+                    if idx > lo:
+                        return dict(fn=f"{fn.__module__}:{fn.__qualname__}", items=jsonable(items[lo:idx]))
+                    return None
+    return None
+
+
+def run_history(hist):
+    """re-execute the recorded chunk prefix (results ignored) so that the interpreter carries the same history"""
+    import importlib
+    modname, name = hist["fn"].split(":")
+    fn = getattr(importlib.import_module(modname), name)
+    for t in hist["items"]:
+        try:
+            fn(t)
+        except BaseException:
+            pass
 
 
 def pmap_fresh(fn, items, workers=None):
@@ -204,6 +248,8 @@ def main(argv=None):
         path = argv[argv.index("--replay") + 1]
         with open(path) as f:
             rec = json.load(f)
+        if rec.get("_history"):
+            run_history(rec["_history"])
         msgs = mod.replay(rec)
         if msgs:
             for m in msgs[:10]:
@@ -237,6 +283,13 @@ def main(argv=None):
     for rec in real[:5]:
         path = write_replay(prop, rec)
         ok, out = confirm_in_subprocess(prop, path)
+        if not ok:
+            # the finding may need what earlier work items of the same process left behind: replay with that history
+            hist = find_history(rec)
+            if hist:
+                rec = dict(rec, _history=hist)
+                path = write_replay(prop, rec)
+                ok, out = confirm_in_subprocess(prop, path)
         if ok:
             reported.append(path)
         else:
